@@ -42,4 +42,81 @@ def fast2sumFix (largest zero : Nat) : List Node := [
   ⟨.sub, [0, 3], 0⟩, ⟨.select, [6, 7, 8], 0⟩ ]
 def fast2sumFixOuts : List Nat := [2, 9]
 
+/-- fpa.split_veltkamp(x, scale=False):  g = C*x; d = g - x; xh = g - d; xl = x - xh  (`cb` = bits of C) -/
+def splitV (cb : Nat) : List Node := [
+  ⟨.const, [], cb⟩, ⟨.input, [], 0⟩, ⟨.mul, [0, 1], 0⟩, ⟨.sub, [2, 1], 0⟩, ⟨.sub, [2, 3], 0⟩, ⟨.sub, [1, 4], 0⟩ ]
+def splitVOuts : List Nat := [4, 5]
+
+/-- utils.split_veltkamp:  g = C*x; d = x - g; xh = g + d; xl = x - xh -/
+def splitVU (cb : Nat) : List Node := [
+  ⟨.const, [], cb⟩, ⟨.input, [], 0⟩, ⟨.mul, [0, 1], 0⟩, ⟨.sub, [1, 2], 0⟩, ⟨.add, [2, 3], 0⟩, ⟨.sub, [1, 4], 0⟩ ]
+
+/-- fpa.mul_dekker(x, y, scale=False, fix_overflow=False) -/
+def mulDekker (cb : Nat) : List Node := [
+  ⟨.input, [], 1⟩,      -- 0: y
+  ⟨.input, [], 0⟩,      -- 1: x
+  ⟨.mul, [0, 1], 0⟩,    -- 2: xyh = y*x
+  ⟨.const, [], cb⟩,     -- 3: C
+  ⟨.mul, [3, 1], 0⟩,    -- 4: gx = C*x
+  ⟨.sub, [4, 1], 0⟩,    -- 5: gx - x
+  ⟨.sub, [4, 5], 0⟩,    -- 6: xh
+  ⟨.sub, [1, 6], 0⟩,    -- 7: xl
+  ⟨.mul, [0, 3], 0⟩,    -- 8: gy = y*C
+  ⟨.sub, [8, 0], 0⟩,    -- 9: gy - y
+  ⟨.sub, [8, 9], 0⟩,    -- 10: yh
+  ⟨.sub, [0, 10], 0⟩,   -- 11: yl
+  ⟨.mul, [7, 11], 0⟩,   -- 12: xl*yl
+  ⟨.mul, [11, 6], 0⟩,   -- 13: yl*xh
+  ⟨.mul, [10, 6], 0⟩,   -- 14: yh*xh
+  ⟨.neg, [2], 0⟩,       -- 15: -xyh
+  ⟨.add, [14, 15], 0⟩,  -- 16: t1
+  ⟨.add, [13, 16], 0⟩,  -- 17: t2
+  ⟨.mul, [7, 10], 0⟩,   -- 18: xl*yh
+  ⟨.add, [17, 18], 0⟩,  -- 19: t3
+  ⟨.add, [12, 19], 0⟩ ] -- 20: xyl
+def mulDekkerOuts : List Nat := [2, 20]
+
+/-- utils.multiply_dekker -/
+def mulDekkerU (cb : Nat) : List Node := [
+  ⟨.input, [], 1⟩,      -- 0: y
+  ⟨.input, [], 0⟩,      -- 1: x
+  ⟨.mul, [0, 1], 0⟩,    -- 2: xyh
+  ⟨.const, [], cb⟩,     -- 3: C
+  ⟨.mul, [0, 3], 0⟩,    -- 4: gy = y*C
+  ⟨.sub, [0, 4], 0⟩,    -- 5: y - gy
+  ⟨.add, [4, 5], 0⟩,    -- 6: yh
+  ⟨.sub, [0, 6], 0⟩,    -- 7: yl
+  ⟨.mul, [3, 1], 0⟩,    -- 8: gx = C*x
+  ⟨.sub, [1, 8], 0⟩,    -- 9: x - gx
+  ⟨.add, [8, 9], 0⟩,    -- 10: xh
+  ⟨.sub, [1, 10], 0⟩,   -- 11: xl
+  ⟨.mul, [7, 11], 0⟩,   -- 12: yl*xl
+  ⟨.mul, [6, 11], 0⟩,   -- 13: yh*xl
+  ⟨.mul, [7, 10], 0⟩,   -- 14: yl*xh
+  ⟨.mul, [6, 10], 0⟩,   -- 15: yh*xh
+  ⟨.neg, [2], 0⟩,       -- 16: -xyh
+  ⟨.add, [15, 16], 0⟩,  -- 17: t1
+  ⟨.add, [14, 17], 0⟩,  -- 18: t2 = yl*xh + t1
+  ⟨.add, [13, 18], 0⟩,  -- 19: t3 = yh*xl + t2
+  ⟨.add, [12, 19], 0⟩ ] -- 20: xyl
+
+/-- utils.square_dekker -/
+def squareDekkerU (cb : Nat) : List Node := [
+  ⟨.input, [], 0⟩,      -- 0: x
+  ⟨.mul, [0, 0], 0⟩,    -- 1: xxh
+  ⟨.const, [], cb⟩,     -- 2: C
+  ⟨.mul, [2, 0], 0⟩,    -- 3: g
+  ⟨.sub, [0, 3], 0⟩,    -- 4: x - g
+  ⟨.add, [3, 4], 0⟩,    -- 5: xh
+  ⟨.sub, [0, 5], 0⟩,    -- 6: xl
+  ⟨.mul, [6, 6], 0⟩,    -- 7: xl*xl
+  ⟨.mul, [6, 5], 0⟩,    -- 8: xl*xh
+  ⟨.mul, [5, 5], 0⟩,    -- 9: xh*xh
+  ⟨.neg, [1], 0⟩,       -- 10
+  ⟨.add, [9, 10], 0⟩,   -- 11: t1
+  ⟨.add, [8, 11], 0⟩,   -- 12: t2
+  ⟨.add, [8, 12], 0⟩,   -- 13: t3
+  ⟨.add, [7, 13], 0⟩ ]  -- 14: xxl
+def squareDekkerUOuts : List Nat := [1, 14]
+
 end FAVerif.Spec
